@@ -89,10 +89,13 @@ class Compiler:
                     if isinstance(insn.target, InstructionPointer):
                         if state["link_base"]["promise"].settled:
                             # Bring the current address forward
-                            def closure(insn):
+                            # 'addr' and 'state' keep changing while the rest
+                            # of the block is compiled; the skip is relative to
+                            # what they are now, whenever fn() is evaluated
+                            def closure(insn, state, old_addr):
                                 nonlocal data, addr
                                 def fn():
-                                    old_addr_value = wait(addr)
+                                    old_addr_value = wait(old_addr)
                                     new_addr_value = get_as_int(state, "link address", state["insn"], insn.value, bitness=16, unsigned=False)
                                     length = new_addr_value - old_addr_value
                                     if length < 0:
@@ -109,7 +112,7 @@ class Compiler:
                                     addr += chunk.length()
                                 else:
                                     addr += len(chunk)
-                            closure(insn)
+                            closure(insn, state, addr)
                         else:
                             # Set link base
                             self.set_link_address(insn.value, state)
